@@ -56,6 +56,7 @@ func genC04Instance(c *vc.Ctx, idx int) *C04Instance {
 	inst := &C04Instance{Index: idx, Seed: rng.Int63(), Clients: 4 + rng.Intn(5), Keys: 3 + rng.Intn(4), GapAcked: 120 + rng.Intn(120)}
 	inst.Opts = ClusterOpts{N: 3, Engine: []string{"pebble", "mem"}[(idx+int(c.Seed))%2], SnapCount: 16 + rng.Intn(10), SnapCatchup: 3 + rng.Intn(4),
 		KeepBackup: 2 + rng.Intn(2), ElectionTick: 10, UseRocksWAL: rng.Intn(4) == 0, WALSegmentBytes: int64(64<<10) << uint(rng.Intn(3))}
+	inst.Opts.OptimizedFsync = idx%3 == 1 // a fixed third of the instances runs with optimized_fsync on
 	nEvents := c.Pick(6, 8)
 	for e := 0; e < nEvents; e++ {
 		var ev FaultEvent
@@ -314,7 +315,8 @@ func runC04(c *vc.Ctx) error {
 	for i := 0; i < c.Pick(1, 4); i++ {
 		rng := c.Rand(int64(4950 + i))
 		jobs = append(jobs, job{&C04Instance{Index: 1100 + i, Seed: rng.Int63(), Directed: "follower-ack", Clients: 2, Keys: 3,
-			Opts: ClusterOpts{N: 3, Engine: []string{"mem", "pebble"}[(i+int(c.Seed))%2], SnapCount: 20, SnapCatchup: 5, KeepBackup: 2, ElectionTick: 10}}})
+			Opts: ClusterOpts{N: 3, Engine: []string{"mem", "pebble"}[(i+int(c.Seed))%2], SnapCount: 20, SnapCatchup: 5, KeepBackup: 2, ElectionTick: 10,
+				OptimizedFsync: (i+int(c.Seed))%2 == 0}}})
 	}
 	for i := 0; i < nRandom; i++ {
 		inst := genC04Instance(c, i)
@@ -720,7 +722,7 @@ func runC04Instance(c *vc.Ctx, inst *C04Instance, attempt int) (inconclusive str
 	}
 	c.Ev.Eval()
 	if nontrivial {
-		c.Ev.Nontrivial(fmt.Sprintf("%s/rockswal=%v/%d/%s%s", inst.Opts.Engine, inst.Opts.UseRocksWAL, inst.Seed, strings.Join(kinds, ","), directedTag(inst)))
+		c.Ev.Nontrivial(fmt.Sprintf("%s/rockswal=%v/optfsync=%v/%d/%s%s", inst.Opts.Engine, inst.Opts.UseRocksWAL, inst.Opts.OptimizedFsync, inst.Seed, strings.Join(kinds, ","), directedTag(inst)))
 	}
 	if len(ops) > 0 {
 		frag := ops
@@ -731,8 +733,8 @@ func runC04Instance(c *vc.Ctx, inst *C04Instance, attempt int) (inconclusive str
 		}
 		c.Ev.Sample(3, map[string]interface{}{"instance": inst.Index, "engine": inst.Opts.Engine, "plan": inst.Plan, "history_fragment": opStrings(frag), "note": directedNote})
 	}
-	fmt.Printf("C04 instance %d (%s%s, rockswal=%v, race=%v): %d ops, %d keys, %d faults, %d snapshots installed, %d leader changes, %.0fs, violated=%v\n",
-		inst.Index, inst.Opts.Engine, directedTag(inst), inst.Opts.UseRocksWAL, inst.Opts.Race, len(ops), len(verdicts), len(inst.Plan), snaps, max(len(r.terms)-1, 0), time.Since(t0).Seconds(), violated)
+	fmt.Printf("C04 instance %d (%s%s, rockswal=%v, optfsync=%v, race=%v): %d ops, %d keys, %d faults, %d snapshots installed, %d leader changes, %.0fs, violated=%v\n",
+		inst.Index, inst.Opts.Engine, directedTag(inst), inst.Opts.UseRocksWAL, inst.Opts.OptimizedFsync, inst.Opts.Race, len(ops), len(verdicts), len(inst.Plan), snaps, max(len(r.terms)-1, 0), time.Since(t0).Seconds(), violated)
 	return ""
 }
 
